@@ -201,7 +201,9 @@ def _has_file_ignore_in_content(file_content: str, rule_id: str | None) -> bool:
 
 def _is_ignored_in_content(file_content: str, violation: "Violation") -> bool:
     """Check content-based ignores (block, line, method level)."""
-    lines = file_content.splitlines()
+    # Violation lines follow the parsers' line model (only "\n" ends a line);
+    # str.splitlines() would also split on form feeds and other separators.
+    lines = file_content.split("\n")
     if _check_block_ignore(lines, violation):
         return True
     if _check_prev_line_ignore(lines, violation):
